@@ -21,6 +21,7 @@ type FaultSet struct {
 	ConnRefuse bool // CONNECT only: CONNACK with return code 3
 	NoConnAck  bool // CONNECT only: no CONNACK, link stays up
 	DialErr    bool // dial fails
+	GoSilent   bool // from this packet on the broker never answers on this connection again (link stays up)
 	// OnlyTypes restricts faults to these packet types (nil = every client->broker packet).
 	OnlyTypes map[byte]bool
 }
@@ -34,9 +35,10 @@ const (
 	fSilentDrop
 	fConnRefuse
 	fNoConnAck
+	fGoSilent
 )
 
-var faultNames = [...]string{"deliver", "lost+close", "write-error", "ack-lost+close", "processed-silent", "dropped-silent", "connect-refused", "no-connack"}
+var faultNames = [...]string{"deliver", "lost+close", "write-error", "ack-lost+close", "processed-silent", "dropped-silent", "connect-refused", "no-connack", "silent-from-here"}
 
 // Delivery is one onward delivery of an application message by the broker.
 type Delivery struct {
@@ -75,9 +77,19 @@ type Broker struct {
 }
 
 type bconn struct {
-	acc       []byte
-	connected bool
-	npkts     int
+	acc         []byte
+	connected   bool
+	npkts       int
+	silent      bool
+	silentSince int64
+}
+
+// SilentSince returns the virtual time at which connection id went silent (-1: it did not).
+func (b *Broker) SilentSince(id int) int64 {
+	if s := b.st[id]; s != nil && s.silent {
+		return s.silentSince
+	}
+	return -1
 }
 
 // NewBroker creates a broker on net n.
@@ -152,6 +164,9 @@ func (b *Broker) faultsFor(p *Packet) []int {
 	if f.SilentDrop {
 		alts = append(alts, fSilentDrop)
 	}
+	if f.GoSilent {
+		alts = append(alts, fGoSilent)
+	}
 	if p.Type == CONNECT {
 		if f.ConnRefuse {
 			alts = append(alts, fConnRefuse)
@@ -181,6 +196,10 @@ func (b *Broker) OnData(c *Conn, data []byte) error {
 			return nil
 		}
 		s.acc = s.acc[n:]
+		if s.silent {
+			b.Net.log(WireEvent{Conn: c.ID, Dir: '>', Pkt: p, Raw: raw, Note: "ignored (broker silent)"})
+			continue
+		}
 		alts := b.faultsFor(p)
 		k := fDeliver
 		if len(alts) > 1 {
@@ -200,6 +219,11 @@ func (b *Broker) OnData(c *Conn, data []byte) error {
 			c.Break("fault: write error")
 			s.acc = nil
 			return ErrLinkDown
+		case fGoSilent:
+			s.silent = true
+			s.silentSince = vrt.Now()
+			b.Net.log(WireEvent{Conn: c.ID, Dir: '>', Pkt: p, Raw: raw, Note: "ignored (broker goes silent from here)"})
+			continue
 		case fSilentDrop:
 			b.Net.log(WireEvent{Conn: c.ID, Dir: '>', Pkt: p, Raw: raw, Note: "DROPPED silently"})
 			continue
